@@ -5,10 +5,11 @@
   R17.3  lookup shape: locate hashes with hash_func, converts with to_u64 (out-of-bounds error), scans the bucket with
          eq_func(key, k); outcomes Vacant / Missing / Found; XMapping::locate and XSet::locate agree (siblings)
   R17.4  bucket-table canonical form: hash/size fold over all buckets, so no producer may store an empty bucket
+  R17.5  location discipline (MIR): a KeyLocation is used only on the collection state `locate` computed it on
 """
 import re
-from .lib import astq, immut
-from .lib.facts import find_nodes
+from .lib import astq, immut, mirq
+from .lib.facts import find_nodes, op_place, strip_generics, callee_name
 
 FILES = ('src/builtin/mapping.rs', 'src/builtin/set.rs')
 
@@ -152,3 +153,167 @@ def run(ctx):
             if not guarded:
                 r4.fail('%s/%s/empty-bucket' % (f.split('/')[-1], fn['name']), '%s:%d' % (f, c['line']), 'a bucket from which an element was removed is stored without a non-emptiness test: an empty bucket changes hash() of an equal collection')
     r4.need(4)
+
+    # ---------------- R17.5
+    location_discipline(ctx)
+
+
+COLL = re.compile(r'builtin::(mapping::XMapping|set::XSet)<')
+PASS_ALONG = ('::branch', '::found', '::as_ref', '::unwrap', '::expect', '::clone', '::as_mut', '::take')
+
+
+def _identity(body, place, depth=16):
+    """which collection a receiver place denotes: follow references / copies / field projections back to the local that holds
+    (or borrows) the collection.  Returns (key, via_clone_of) where key is ('arg', n) | ('call', bb) | ('multi', l) | None and,
+    for a value produced by Clone::clone / a rebuild from the receiver's own table, the identity it was copied from."""
+    cur = place['l']
+    is_coll = False
+    for _ in range(depth):
+        if COLL.search(body.local_ty(cur) or ''):
+            is_coll = True
+        ds = body.defs().get(cur, [])
+        if not ds:
+            if 1 <= cur <= body.d['argc']:
+                return (('arg', cur) if is_coll else None), None
+            return None, None
+        if len(ds) > 1:
+            return (('multi', cur) if is_coll else None), None
+        kind, bb, idx, x = ds[0]
+        if kind == 'call':
+            nm = strip_generics(callee_name(x) or '')
+            src_id = None
+            if nm.endswith('::clone') and x['args'] and op_place(x['args'][0]) is not None:
+                src_id = _identity(body, op_place(x['args'][0]), depth - 1)[0]
+            return (('call', bb) if is_coll else None), src_id
+        rv = x['rv']
+        if rv['k'] in ('ref', 'copyderef', 'rawptr'):
+            cur = rv['place']['l']
+            continue
+        if rv['k'] in ('use', 'cast') and op_place(rv['op']) is not None:
+            cur = op_place(rv['op'])['l']
+            continue
+        return (('rv', cur) if is_coll else None), None
+    return None, None
+
+
+def _tainted(body, start):
+    t = {start}
+    changed = True
+    while changed:
+        changed = False
+        for i, j, s in body.stmts():
+            if s['k'] != 'assign' or s['place']['l'] in t:
+                continue
+            rv = s['rv']
+            if rv['k'] == 'discr':
+                continue
+            srcs = set()
+            for key in ('op', 'a', 'b'):
+                if isinstance(rv.get(key), dict) and op_place(rv[key]) is not None:
+                    srcs.add(op_place(rv[key])['l'])
+            if 'place' in rv:
+                srcs.add(rv['place']['l'])
+            for o in rv.get('ops', []):
+                if op_place(o) is not None:
+                    srcs.add(op_place(o)['l'])
+            if srcs & t and not s['place']['p']:
+                t.add(s['place']['l'])
+                changed = True
+        for bb, c in body.calls():
+            nm = strip_generics(callee_name(c) or '')
+            if nm.endswith(PASS_ALONG) and not c['dest']['p'] and c['dest']['l'] not in t and c['args'] and op_place(c['args'][0]) is not None and op_place(c['args'][0])['l'] in t:
+                t.add(c['dest']['l'])
+                changed = True
+    return t
+
+
+def _mutations(body, ident):
+    """blocks in which the collection `ident` is written: calls handing out `&mut` to it (or to a part of it), field assignments"""
+    out = []
+    for bb, c in body.calls():
+        if not c['args']:
+            continue
+        p = op_place(c['args'][0])
+        if p is None or p['p']:
+            continue
+        if not (body.local_ty(p['l']) or '').startswith('&mut'):
+            continue
+        if _identity(body, p)[0] == ident:
+            out.append(bb)
+    for i, j, s in body.stmts():
+        if s['k'] == 'assign' and s['place']['p'] and _identity(body, {'l': s['place']['l'], 'p': []})[0] == ident:
+            out.append(i)
+    return out
+
+
+def _reach(body, start_blocks, avoid):
+    seen = set()
+    todo = list(start_blocks)
+    while todo:
+        b = todo.pop()
+        if b in seen or b in avoid:
+            continue
+        seen.add(b)
+        todo.extend(body.succ(b))
+    return seen
+
+
+def location_discipline(ctx):
+    """R17.5: a KeyLocation describes one state of one bucket table.  Every use of a location (put_located, try_put_located, get,
+    or a HashMap operation keyed by its hash) must be applied to the collection `locate` was called on, in the state it had then:
+    either the same collection with no write in between, or a clone of it that has not been written since it was cloned."""
+    r5 = ctx.rule('R17.5', 'a key location is used on the collection state it was computed on')
+    n = 0
+    for b in ctx.mir.bodies:
+        if b.file not in FILES:
+            continue
+        for lbb, lt in b.calls():
+            nm = strip_generics(callee_name(lt) or '')
+            if not re.search(r'builtin::(mapping::XMapping|set::XSet)::locate$', nm) or lt['dest']['p']:
+                continue
+            rp = op_place(lt['args'][0])
+            x_id = _identity(b, rp)[0] if rp is not None else None
+            taint = _tainted(b, lt['dest']['l'])
+            fn = strip_generics(ctx.mir.enclosing_fn(b)) if b.kind == "closure" else b.nid
+            for cbb, ct in b.calls():
+                if cbb == lbb or len(ct['args']) < 2:
+                    continue
+                cn = strip_generics(callee_name(ct) or '')
+                if cn.endswith(PASS_ALONG):
+                    continue
+                if not any(op_place(a) is not None and op_place(a)['l'] in taint for a in ct['args'][1:]):
+                    continue
+                p0 = op_place(ct['args'][0])
+                if p0 is None:
+                    continue
+                y_id, y_src = _identity(b, p0)
+                if y_id is None:
+                    continue
+                n += 1
+                where = mirq.site(b, cbb)
+                short = cn.split('::')[-1]
+                if x_id is None:
+                    r5.inst({'fn': fn, 'use': short, 'receiver': 'unresolved'}, ok=False)
+                    r5.fail('%s/%s/unresolved-receiver' % (fn, short), where, 'cannot tell which collection locate was applied to')
+                    continue
+                if y_id == x_id:
+                    # no write to the collection between locate and this use (a path that passes locate again recomputes the location)
+                    after_l = _reach(b, b.succ(lbb), {lbb})
+                    bad = [m for m in _mutations(b, x_id) if m in after_l and cbb in _reach(b, b.succ(m), {lbb})]
+                    ok = not bad
+                    r5.inst({'fn': fn, 'use': short, 'receiver': 'same collection', 'writes_between': len(bad)}, ok=ok, kind=(fn, short, 'same'))
+                    if not ok:
+                        r5.fail('%s/%s/stale-location' % (fn, short), where, 'the collection is written (%s) between locate and this use of the location: the location may describe a bucket that has changed' % mirq.site(b, bad[0]))
+                    continue
+                if y_src == x_id and y_id[0] == 'call':
+                    clone_bb = y_id[1]
+                    since = _reach(b, b.succ(clone_bb), {clone_bb})
+                    bad = [m for m in _mutations(b, y_id) if m in since and (cbb in _reach(b, b.succ(m), {clone_bb}))]
+                    ok = not bad
+                    r5.inst({'fn': fn, 'use': short, 'receiver': 'fresh clone of the located collection', 'writes_since_clone': len(bad)}, ok=ok, kind=(fn, short, 'clone'))
+                    if not ok:
+                        r5.fail('%s/%s/clone-not-fresh' % (fn, short), where, 'the location was computed on the original collection, but the copy it is applied to can have been written since it was cloned (%s): a key added to the copy is not seen by locate' % mirq.site(b, bad[0]))
+                    continue
+                r5.inst({'fn': fn, 'use': short, 'receiver': 'another collection'}, ok=False)
+                r5.fail('%s/%s/other-collection' % (fn, short), where, 'a location computed on one collection is used on another one')
+    r5.need(8)
